@@ -286,5 +286,31 @@ func runNumbers(o *hx.Opts, res *hx.Result, r *hx.Rand) {
 		res.Eval("numtext:"+s, true)
 		w.add(fmt.Sprintf("KNumParse %s %s", hx.Str(s), optDec(bd)), map[string]any{"kind": "number-text", "text": s}, fmt.Sprint(bd))
 	}
+
+	// number literals with exponent notation: decimal.NewFromString directly (what parse_json uses)
+	lr := r.Fork("literals")
+	nl := o.Count(200, 8000)
+	lits := append(append([]string{}, jsonNumPool...), jsonBadExpPool...)
+	lits = append(lits, "1e", "e5", "1e+", "1.e5", ".5e1", "1e5.0", "1e2147483647", "1e2147483648", "1e-2147483648", "1e-2147483649", "0.1e-2147483648", "+1e5", "1E+05", "1e05", "١e5", "1 e5", "-", "1.2.3e4", "Infinity")
+	for i := 0; i < len(lits)+nl; i++ {
+		var s string
+		if i < len(lits) {
+			s = lits[i]
+		} else {
+			s = genJSONNumber(lr).lit
+			if lr.Chance(1, 4) {
+				s = mutateNumText(lr, s)
+			}
+		}
+		var bd *dnum
+		if d, err := decimal.NewFromString(s); err == nil {
+			bd = &dnum{new(big.Int).Set(d.Coefficient()), int(d.Exponent())}
+			res.Dist("numliteral:accepted")
+		} else {
+			res.Dist("numliteral:rejected")
+		}
+		res.Eval("numliteral:"+s, true)
+		w.add(fmt.Sprintf("KNumNew %s %s", hx.Str(s), optDec(bd)), map[string]any{"kind": "number-literal", "text": s}, fmt.Sprint(bd))
+	}
 	w.flush()
 }
